@@ -23,8 +23,9 @@ EXTENDS Universe, PathAst, Json, TLC
 CONSTANTS ChainLen, StartSet,
           Walkers      \* 0: explore every enabled step; n > 0: n independent random walks
 
-VARIABLES reg, buf, hist, start, w
-vars == <<reg, buf, hist, start, w>>
+VARIABLES reg, buf, hist, start, w,
+          rep     \* how the caller currently holds each register: "bin" (JSONB) or "text" (a rendering)
+vars == <<reg, buf, hist, start, w, rep>>
 R == 2
 Nil == [k |-> "nil"]
 
@@ -46,6 +47,12 @@ SelMode(s, mode) ==
   IF ~s.ok THEN [t |-> "err", e |-> "InvalidJsonPath"]
   ELSE LET items == ModeItems(mode, s.v) IN IF Len(items) = 0 THEN [t |-> "none"] ELSE RDocS(items[1])
 
+RECURSIVE ToUnsignedD(_)
+ToUnsignedD(d) ==
+  CASE d.k = "num" -> IF d.r = "i" /\ d.b[1] < 128 THEN NumD(N("u", d.b)) ELSE d
+    [] d.k = "arr" -> Arr([i \in 1..Len(d.a) |-> ToUnsignedD(d.a[i])])
+    [] d.k = "obj" -> Obj([i \in 1..Len(d.o) |-> <<d.o[i][1], ToUnsignedD(d.o[i][2])>>])
+    [] OTHER -> d
 ApplyStep(s, rg) ==
   LET x == rg[s.src[1]]
       y == IF Len(s.src) >= 2 THEN rg[s.src[2]] ELSE Nil
@@ -69,6 +76,9 @@ ApplyStep(s, rg) ==
        [] s.f = "get_by_keypath" -> OfOpt(GetByKeypath(x, a.kp))
        [] s.f = "object_keys" -> OfOpt(ObjectKeys(x))
        [] s.f = "select" -> SelMode(Select(a.path, x), a.mode)
+       \* rendering to JSON text: the register then holds the text, which denotes the document with its
+       \* non-negative integers unsigned; later steps receive the text as their argument
+       [] s.f \in {"to_string", "to_pretty_string"} -> [t |-> "text", v |-> ToUnsignedD(Canon(x))]
 
 St(f, src, dst, a) == [f |-> f, src |-> src, dst |-> dst, a |-> a]
 NoArgS == [z |-> 0]
@@ -77,10 +87,11 @@ ChainPaths == {<<Root, Idx(<<AiS(IxL(-1), IxL(0))>>)>>, <<Root, Idx(<<AiI(IxN(0)
                <<Root, FilterSt(EExists(<<Cur, Dot(ka)>>))>>}
 
 \* every step enabled in the current state (arguments drawn from the current documents)
-StepsFrom(rg) ==
+StepsFrom(rg, rp) ==
   UNION {
     LET x == rg[i] IN
-      {St("strip_nulls", <<i>>, d, NoArgS), St("array_distinct", <<i>>, d, NoArgS), St("object_keys", <<i>>, d, NoArgS)}
+      {St("strip_nulls", <<i>>, d, NoArgS), St("array_distinct", <<i>>, d, NoArgS), St("object_keys", <<i>>, d, NoArgS),
+       St("to_string", <<i>>, i, NoArgS), St("to_pretty_string", <<i>>, i, NoArgS)}
       \cup {St("delete_by_name", <<i>>, d, [n |-> n]) : n \in NameArgs(x)}
       \cup {St("get_by_name", <<i>>, d, [n |-> n, ic |-> c]) : n \in NameArgs(x), c \in {0, 1}}
       \cup {St("delete_by_index", <<i>>, d, [i |-> k]) : k \in IndexArgs(x)}
@@ -90,26 +101,30 @@ StepsFrom(rg) ==
       \cup {St(f, <<i>>, d, [keys |-> ks]) : f \in {"object_delete", "object_pick"}, ks \in KeyLists(x)}
       \cup {St("select", <<i>>, d, [path |-> p, mode |-> m]) : p \in ChainPaths, m \in {"first", "array", "mixed"}}
       \cup UNION {
-             {St(f, <<i, j>>, d, NoArgS) : f \in {"concat", "build_array", "array_intersection", "array_except"}}
+             {St(f, <<i, j>>, d, NoArgS) : f \in {"concat", "array_intersection", "array_except"}}
+             \* the builders take JSONB parts only ("assuming that the input values is valid JSONB data")
+             \cup (IF rp[i] = "bin" /\ rp[j] = "bin" THEN {St("build_array", <<i, j>>, d, NoArgS)} ELSE {})
              \cup {St("array_insert", <<i, j>>, d, [pos |-> k]) : k \in IndexArgs(x)}
              \cup {St("object_insert", <<i, j>>, d, [n |-> n, upd |-> u]) : n \in PresentKeys(x) \cup {ka, <<122>>}, u \in {0, 1}}
-             \cup {St("build_object", <<i, j>>, d, [keys |-> ks]) : ks \in {<<ka, kb>>, <<kb, ka>>, <<ka, ka>>}}
+             \cup (IF rp[i] = "bin" /\ rp[j] = "bin" THEN {St("build_object", <<i, j>>, d, [keys |-> ks]) : ks \in {<<ka, kb>>, <<kb, ka>>, <<ka, ka>>}} ELSE {})
              : j \in 1..R}
     : i \in 1..R, d \in 1..R}
 
 \* a random walk takes one randomly chosen enabled step where exhaustive exploration takes all
 Chosen(S) == IF Walkers = 0 THEN S ELSE {RandomElement(S)}
 Init == reg = [i \in 1..R |-> Nil] /\ buf = <<>> /\ hist = <<>> /\ start = <<>> /\ w \in (IF Walkers = 0 THEN {0} ELSE 1..Walkers)
+        /\ rep = [i \in 1..R |-> "bin"]
 Begin ==
   /\ start = <<>>
   /\ \E d1 \in Chosen(Starts), d2 \in Chosen(Starts) : start' = <<d1, d2>> /\ reg' = <<d1, d2>>
-  /\ UNCHANGED <<buf, hist, w>>
+  /\ UNCHANGED <<buf, hist, w, rep>>
 DoStep ==
   /\ start # <<>> /\ Len(hist) < ChainLen
-  /\ \E s \in Chosen(StepsFrom(reg)) :
+  /\ \E s \in Chosen(StepsFrom(reg, rep)) :
        LET r == ApplyStep(s, reg)
        IN /\ hist' = Append(hist, s)
-          /\ reg' = IF r.t = "doc" THEN [reg EXCEPT ![s.dst] = r.v] ELSE reg
+          /\ reg' = IF r.t \in {"doc", "text"} THEN [reg EXCEPT ![s.dst] = r.v] ELSE reg
+          /\ rep' = IF r.t = "doc" THEN [rep EXCEPT ![s.dst] = "bin"] ELSE IF r.t = "text" THEN [rep EXCEPT ![s.dst] = "text"] ELSE rep
           /\ buf' = IF r.t = "doc" THEN buf \o Encode(r.v) ELSE buf
   /\ UNCHANGED <<start, w>>
 Next == Begin \/ DoStep
